@@ -144,6 +144,8 @@ def run(binp, tier, scratch, workers=16):
         values = [None] + valids[:1] + bads
         if tier == "thorough":
             values = [None] + valids + bads
+        if flag != "debug":
+            values = values + ["0"]  # well-formed: "any free port" (the kernel picks one), not "unset"
         for pv in values:
             for bv in values:
                 jobs.append((flag, name, default, pv, bv, valids))
@@ -200,6 +202,8 @@ def run(binp, tier, scratch, workers=16):
                     else:
                         mine = listening_ports(px.p.pid) - {other}
                         got = ",".join(str(x) for x in sorted(mine)) or "none"
+                        if want == "0" and len(mine) == 1 and str(list(mine)[0]) != default:
+                            got = "0"  # one port of the kernel's choosing
             finally:
                 px.stop()
         finally:
